@@ -8,9 +8,12 @@ PROP = "C09"
 
 
 def _one(item):
+    from ..watchdog import Timeout, limit
+
     try:
-        return _one_inner(item)
-    except Exception as e:  # noqa: BLE001 - unexpected behaviour of the code under test
+        with limit(120):
+            return _one_inner(item)
+    except (Exception, Timeout) as e:  # noqa: BLE001 - unexpected behaviour of the code under test
         tag, data = item
         return {"steps": 0, "refused": 0, "vm_rejected": 0, "pickles": 1,
                 "viol": [(PROP, f"C09|unexpected-exception|{type(e).__name__}", f"{tag}: {type(e).__name__}: {e}",
@@ -76,8 +79,14 @@ def run(rep, tier):
     for i, v in enumerate(corpus.object_values()):
         for tag, b in corpus.pickles_of(v):
             items.append((f"obj[{i}]/{tag}", b))
-    with mp.get_context("fork").Pool(ncpu()) as pool:
-        for r in pool.imap_unordered(_one, items, chunksize=64):
+    from .. import par
+
+    if True:
+        for r in par.pmap_unordered(_one, items, chunksize=64):
+            if isinstance(r, par.WorkerDied):
+                r = {"steps": 0, "refused": 0, "vm_rejected": 0, "pickles": 1,
+                     "viol": [(PROP, "C09|worker-process-died", f"{r.why} while stepping {r.item[0]}",
+                               {"engine": "corpus", "kind": "full", "tag": r.item[0], "bytes": r.item[1]}, 0)]}
             rep.add("corpus_pickles", r["pickles"])
             rep.add("corpus_prefix_steps", r["steps"])
             rep.add("corpus_refused_by_fickling", r["refused"])
